@@ -96,6 +96,9 @@ def generate(seed, tier='quick'):
            'faults': None, 'horizon': 3.0}
     if backend == 'dict' and rng.random() < 0.4:
         scn['dict_kind'] = 'shelf'
+    if backend == 'disk' and rng.random() < 0.35:
+        # partial writes are not errors: the file ends up complete
+        scn['short_writes'] = rng.choice([2, 3, 5])
     if backend == 'redis':
         # the key prefix is configuration: any string is legal
         scn['redis_prefix'] = rng.choice(['slimta:', 'slimta:', 'mailq-',
@@ -271,7 +274,15 @@ def execute(scn, debug=False):
                                 % (k, type(r).__name__, r), op='get',
                                 exc=type(r).__name__)
                         continue
-                    genv, att = r
+                    try:
+                        genv, att = r
+                        genv.sender, genv.recipients, _flat(genv)
+                    except Exception as e:
+                        # not an (envelope, attempts) pair at all
+                        bad('C15/get', 'message %d: get returned %.80r (%s: '
+                            '%s)' % (k, r, type(e).__name__, e),
+                            what='not-an-envelope')
+                        continue
                     if genv.sender != m['sender'] or _flat(genv) != content:
                         bad('C15/get', 'message %d: get returned sender %r / '
                             'content differing from what was written' % (
